@@ -753,6 +753,20 @@ impl Config {
       }
     };
 
+    let timestamp_format: String = matches
+      .get_one::<String>(arg::TIMESTAMP_FORMAT)
+      .unwrap()
+      .into();
+
+    // chrono panics when an invalid format is displayed
+    if chrono::format::StrftimeItems::new(&timestamp_format)
+      .any(|item| matches!(item, chrono::format::Item::Error))
+    {
+      return Err(ConfigError::TimestampFormat {
+        format: timestamp_format,
+      });
+    }
+
     let unstable = matches.get_flag(arg::UNSTABLE) || subcommand == Subcommand::Summary;
     let explain = matches.get_flag(arg::EXPLAIN);
 
@@ -799,10 +813,7 @@ impl Config {
       shell_command: matches.get_flag(arg::SHELL_COMMAND),
       subcommand,
       timestamp: matches.get_flag(arg::TIMESTAMP),
-      timestamp_format: matches
-        .get_one::<String>(arg::TIMESTAMP_FORMAT)
-        .unwrap()
-        .into(),
+      timestamp_format,
       unsorted: matches.get_flag(arg::UNSORTED),
       unstable,
       verbosity: if matches.get_flag(arg::QUIET) {
